@@ -134,7 +134,7 @@ func vC04Dns64History(out *vC04Out, r *rand.Rand, budget int) int {
 		// snapshot the pieces, ask for AAAA through dns64 -> cache -> downstream
 		preNeg := env.peek(vC04KeyT(name, dns.TypeAAAA))
 		preA := env.peek(vC04KeyT(name, dns.TypeA))
-		preT := env.peek(vC04KeyT(target, dns.TypeA))
+		preT := env.peek(vC04KeyT("t64.c04.test.", dns.TypeA))
 		req := new(dns.Msg)
 		req.SetQuestion(name, dns.TypeAAAA)
 		req.RecursionDesired = true
@@ -197,30 +197,25 @@ func vC04Dns64History(out *vC04Out, r *rand.Rand, budget int) int {
 			}
 			negPiece = vC04PieceCoq(k, preNeg, 0)
 		}
-		// the address records come from the terminal name's answer
+		// the address records come from the answer of the name that owns the synthesised
+		// records (the end of the alias chain as it was actually followed)
 		var addrs []string
 		termName, termPre := name, preA
-		if target != name {
-			termName, termPre = target, preT
-		}
-		if target != name && !stubbed[name] && live(preA) {
-			// the alias itself was served from the cache: its chase decides where the addresses come from
-		}
-		termScript := env.stub.script[termName].resp
-		nAddr := 0
-		for _, rr := range termScript.Answer {
-			if a, ok := rr.(*dns.A); ok {
-				nAddr++
-				if stubbed[termName] || !live(termPre) {
-					addrs = append(addrs, vC04PieceCoq(k, nil, a.Hdr.Ttl))
-				} else {
-					addrs = append(addrs, vC04PieceCoq(k, termPre, 0))
-				}
+		for _, rr := range resp.Answer {
+			if rr.Header().Rrtype == dns.TypeAAAA {
+				termName = strings.ToLower(rr.Header().Name)
 			}
 		}
-		if !stubbed[termName] && live(termPre) {
-			// served from the cache: the entry may predate a re-scripting; count ITS address records
-			addrs = addrs[:0]
+		if termName != name {
+			termPre = preT
+		}
+		if stubbed[termName] || !live(termPre) {
+			for _, rr := range env.stub.script[termName].resp.Answer {
+				if a, ok := rr.(*dns.A); ok {
+					addrs = append(addrs, vC04PieceCoq(k, nil, a.Hdr.Ttl))
+				}
+			}
+		} else {
 			for _, rr := range termPre.storedMsg().Answer {
 				if _, ok := rr.(*dns.A); ok {
 					addrs = append(addrs, vC04PieceCoq(k, termPre, 0))
@@ -249,10 +244,17 @@ func vC04Dns64History(out *vC04Out, r *rand.Rand, budget int) int {
 		if !stubbed[termName] {
 			kk += "-addrcached"
 		}
-		if target != name {
+		if termName != name {
 			kk += "-alias"
 		}
-		out.emit(map[string]any{"k": kk, "nontrivial": true, "go_fail": fail,
+		fkey := ""
+		if !hasSOA && !stubbed[name+"|AAAA"] && live(preNeg) {
+			// KNOWN finding class: the AAAA NODATA piece is a cached answer without an SOA
+			// (held for the 5 s floor); nothing in it carries its remaining lifetime to dns64
+			fkey = "dns64-bare-nodata"
+			kk += "-baresoa"
+		}
+		out.emit(map[string]any{"k": kk, "nontrivial": true, "go_fail": fail, "fkey": fkey,
 			"coq": fmt.Sprintf("CDns64 %v %s %d [%s] %s %s [%s]%%Z", hasSOA, negPiece, minimum, strings.Join(addrs, "; "), vC04Z(t0), vC04Z(t1), strings.Join(obs, "; ")),
 			"desc": map[string]any{"reply": resp.String(), "went_downstream": env.stub.calls}})
 		emitted++
